@@ -76,6 +76,7 @@ pub fn convert<'gc, 'r>(env: &mut Env<'gc, 'r>, ex: &mut Exec, target: Sel, chai
                     Ref::Arr(g) => Ref::Arr(Gc::from_ptr(Gc::as_ptr(g))),
                     Ref::P(g) => Ref::P(Gc::from_ptr(Gc::as_ptr(g))),
                     Ref::DB(g) => Ref::DB(Gc::from_ptr(Gc::as_ptr(g))),
+                    Ref::NT(g) => Ref::NT(Gc::from_ptr(Gc::as_ptr(g))),
                     Ref::Set(..) => r,
                 }
             };
